@@ -124,16 +124,29 @@ func c13Specs(tier string) []*XSpec {
 				return (op.K == "gc" && ngc >= 1) || (op.K == "restart" && nrs >= 2)
 			}}
 	}
+	// non-initial start states: the colliding group is already written (each key once, in key order; the forced hash makes the
+	// keys interchangeable), then every history of d more letters: this reaches the depth d+2 / d+3 histories that matter most
+	after := func(x *XSpec, n int) *XSpec {
+		for _, k := range x.Keys[:n] {
+			x.Prefix = append(x.Prefix, Op{K: "set", V: "s", Key: k})
+		}
+		x.Name += "-after-" + strings.ReplaceAll(HistString(x.Prefix), " ", "+")
+		return x
+	}
 	if tier == "quick" {
 		return []*XSpec{
 			mk(cfgCollide(false), []string{"x1", "x2", "a"}, []string{"x1", "x2"}, 5),
 			mk(cfgCollide(true), []string{realCollideA, realCollideB, "a"}, []string{realCollideA, realCollideB}, 4),
+			after(mk(cfgCollide(false), []string{"x1", "x2", "a"}, []string{"x1", "x2"}, 4), 2),
+			after(mk(cfgCollide(false), []string{"x1", "x2", "x3", "a"}, []string{"x1", "x2", "x3"}, 3), 3),
 		}
 	}
 	return []*XSpec{
 		mk(cfgCollide(false), []string{"x1", "x2", "a"}, []string{"x1", "x2"}, 6),
 		mk(cfgCollide(false), []string{"x1", "x2", "x3", "a"}, []string{"x1", "x2", "x3"}, 5),
 		mk(cfgCollide(true), []string{realCollideA, realCollideB, "a"}, []string{realCollideA, realCollideB}, 5),
+		after(mk(cfgCollide(false), []string{"x1", "x2", "a"}, []string{"x1", "x2"}, 5), 2),
+		after(mk(cfgCollide(false), []string{"x1", "x2", "x3", "a"}, []string{"x1", "x2", "x3"}, 4), 3),
 	}
 }
 
